@@ -423,15 +423,20 @@ class set:
             self.config = config
             self._record = []
 
-            if arg is not None:
-                for key, value in arg.items():
-                    key = check_deprecations(key)
-                    self._assign(key.split("."), value, config)
-            if kwargs:
-                for key, value in kwargs.items():
-                    key = key.replace("__", ".")
-                    key = check_deprecations(key)
-                    self._assign(key.split("."), value, config)
+            try:
+                if arg is not None:
+                    for key, value in arg.items():
+                        key = check_deprecations(key)
+                        self._assign(key.split("."), value, config)
+                if kwargs:
+                    for key, value in kwargs.items():
+                        key = key.replace("__", ".")
+                        key = check_deprecations(key)
+                        self._assign(key.split("."), value, config)
+            except BaseException:
+                # A failing set must not leave the keys assigned so far behind
+                self.__exit__(None, None, None)
+                raise
 
     def __enter__(self):
         return self.config
@@ -480,17 +485,17 @@ class set:
         path = path + (key,)
 
         if len(keys) == 1:
-            if record:
-                if key in d:
-                    self._record.append(("replace", path, d[key]))
-                else:
-                    self._record.append(("insert", path, None))
+            # Record only assignments that happened, so that a failing
+            # assignment leaves nothing behind to roll back
+            op = ("replace", path, d[key]) if key in d else ("insert", path, None)
             d[key] = value
+            if record:
+                self._record.append(op)
         else:
             if key not in d:
+                d[key] = {}
                 if record:
                     self._record.append(("insert", path, None))
-                d[key] = {}
                 # No need to record subsequent operations after an insert
                 record = False
             self._assign(keys[1:], value, d[key], path, record=record)
